@@ -28,12 +28,14 @@ def bc_configs(E):
     return out
 
 
-def mk_bc(ctx, it, E, types, tag=''):
+def mk_bc(ctx, it, E, types, tag='', rev=False):
     els = ELS[1:1 + E]
-    lt = {e: types[2 * k] for k, e in enumerate(els)}
-    rt = {e: types[2 * k + 1] for k, e in enumerate(els)}
-    lv = {e: real(ctx, '%sleftBC_%s' % (tag, e)) for e in els}
-    rv = {e: real(ctx, '%srightBC_%s' % (tag, e)) for e in els}
+    # rev: the conditions were set in another order than the model's element order (dictionary insertion order differs from the element list)
+    order = list(reversed(list(enumerate(els)))) if rev else list(enumerate(els))
+    lt = {e: types[2 * k] for k, e in order}
+    rt = {e: types[2 * k + 1] for k, e in order}
+    lv = {e: real(ctx, '%sleftBC_%s' % (tag, e)) for k, e in order}
+    rv = {e: real(ctx, '%srightBC_%s' % (tag, e)) for k, e in order}
     bc = new_obj(it, DP, 'BoundaryConditions', leftBCtype=lt, rightBCtype=rt, leftBC=lv, rightBC=rv)
     return bc, els
 
@@ -55,10 +57,10 @@ def bc_face_contract(bc, els, J, N):
 
 
 @REG.contract('applyBoundaryConditionsToFluxes', [DP + ':BoundaryConditions.applyBoundaryConditionsToFluxes'],
-              configs=bc_configs(1) + bc_configs(2))
+              configs=bc_configs(1) + bc_configs(2) + [dict(c, name=c['name'] + ',set-in-reverse-order', rev=True) for c in bc_configs(2)])
 def c_bc(ctx, it, cfg):
     E = cfg['E']
-    bc, els = mk_bc(ctx, it, E, cfg['types'])
+    bc, els = mk_bc(ctx, it, E, cfg['types'], rev=cfg.get('rev', False))
     N = integer(ctx, 'N', lambda v: v >= 3)
     J = array(ctx, 'J', (E, N + 1))
     old = J.snap()
